@@ -52,6 +52,10 @@ TStep == /\ l <= Len(Tr.events)
                \/ e.op = "nl"         /\ Nl1(e.h, e.res)
                \/ e.op = "cmt"        /\ Cmt1(e.h)
                \/ e.op = "reformat"   /\ Reformat1(e.h)
+               \/ e.op = "noreformat" /\ NoReformat1(e.h)
+               \/ e.op = "vfmt"       /\ VFmt1(e.h, FALSE)
+               \/ e.op = "vfmtf"      /\ VFmt1(e.h, TRUE)
+               \/ e.op = "abort"      /\ Abort1(e.h)
                \/ e.op = "leave"      /\ Leave1(e.h, e.res)
                \/ e.op = "reenter"    /\ Reenter1(e.h)
                \/ e.op = "drop"       /\ Drop1(e.h)
